@@ -223,12 +223,17 @@ func c17Run(c *Ctx, gen string, idx int, sc c17Script) bool {
 			return out
 		}
 	}
+	// every other script installs the generator only after the client exists, through Config()
+	lateGen := genf != nil && idx%2 == 1
 	s := NewSession(SessionOpts{Tracking: sc.Tracking, Flood: true, Mutate: func(cfg *client.Config) {
-		if genf != nil {
+		if genf != nil && !lateGen {
 			cfg.NewNick = genf
 		}
 	}})
 	defer s.Release()
+	if lateGen {
+		s.Conn.Config().NewNick = genf
+	}
 	if genf == nil {
 		genf = client.DefaultNewNick
 	}
@@ -253,9 +258,14 @@ func c17Run(c *Ctx, gen string, idx int, sc c17Script) bool {
 	viol := func(kind, detail string) {
 		c.R.Violate(rig.Violation{Sig: "c17|" + kind, Detail: detail + " — script: " + sc.String(), Case: Case(gen, idx)})
 	}
+	// Me() stores a fresh snapshot in Config().Me and returns that field: two unsynchronised callers can be handed each
+	// other's snapshot. That is no part of this property, so the harness serialises its own calls.
+	var meMu sync.Mutex
 	// nil checks inside handlers: Config().Me first (Me() rewrites it)
 	var nilSeen [2]int32
 	probe := func(cc *client.Conn, l *client.Line) {
+		meMu.Lock()
+		defer meMu.Unlock()
 		if cc.Config().Me == nil {
 			atomic.StoreInt32(&nilSeen[0], 1)
 		}
@@ -266,11 +276,58 @@ func c17Run(c *Ctx, gen string, idx int, sc c17Script) bool {
 	for _, ev := range []string{"433", "NICK", client.CONNECTED} {
 		conn.HandleFunc(ev, probe)
 	}
+	// background handlers of the client's own NICK lines: the change has been applied before they start, so Me()
+	// reports the new nick (or, when later lines have been applied meanwhile, one the server gave it after that)
+	var histMu sync.Mutex
+	var hist []string
+	announce := func(n string) { histMu.Lock(); hist = append(hist, n); histMu.Unlock() }
+	var bgStale atomic.Value
+	var nickSent, bgDone int64 // NICK lines sent by the server / background invocations finished
+	bgQuiet := func() bool {
+		return waitUntil(func() bool { return atomic.LoadInt64(&bgDone) >= atomic.LoadInt64(&nickSent) })
+	}
+	conn.HandleBG("NICK", client.HandlerFunc(func(cc *client.Conn, l *client.Line) {
+		defer atomic.AddInt64(&bgDone, 1)
+		if len(l.Args) == 0 {
+			return
+		}
+		meMu.Lock()
+		me := cc.Me()
+		var meNick string
+		if me != nil {
+			meNick = me.Nick
+		}
+		meMu.Unlock()
+		if me == nil {
+			return
+		}
+		histMu.Lock()
+		h := append([]string(nil), hist...)
+		histMu.Unlock()
+		p := -1
+		for i := len(h) - 1; i >= 1; i-- {
+			if h[i] == l.Args[0] && h[i-1] == l.Nick {
+				p = i
+				break
+			}
+		}
+		if p < 0 {
+			return // somebody else's change
+		}
+		for _, x := range h[p:] {
+			if x == meNick {
+				return
+			}
+		}
+		bgStale.Store(fmt.Sprintf("a background handler for the client's own change %q -> %q got Me().Nick = %q", l.Nick, l.Args[0], meNick))
+	}))
 	var connectedNick atomic.Value
 	conn.HandleFunc(client.CONNECTED, func(cc *client.Conn, l *client.Line) {
+		meMu.Lock()
 		if me := cc.Me(); me != nil {
 			connectedNick.Store(me.Nick)
 		}
+		meMu.Unlock()
 	})
 	mc, err := s.Connect()
 	if err != nil {
@@ -331,6 +388,7 @@ func c17Run(c *Ctx, gen string, idx int, sc c17Script) bool {
 		"Welcome",
 		fmt.Sprintf("Welcome %s!~id@some.host.example", srvNick),
 	}[(idx+sc.Collisions)%4]
+	announce(srvNick)
 	mc.SendLine(fmt.Sprintf(":srv 001 %s :%s", srvNick, welcomeText))
 	if sc.Joined {
 		mc.SendLine(fmt.Sprintf(":%s!ident@host JOIN #c", srvNick))
@@ -345,6 +403,8 @@ func c17Run(c *Ctx, gen string, idx int, sc c17Script) bool {
 			c.R.Inconcl(fmt.Sprintf("%s: marker %s not reached (%s)", Case(gen, idx), when, ds.Reason))
 			return false
 		}
+		meMu.Lock()
+		defer meMu.Unlock()
 		cfgMe := conn.Config().Me
 		if cfgMe == nil {
 			viol("config-me-nil", fmt.Sprintf("Config().Me is nil %s", when))
@@ -366,6 +426,9 @@ func c17Run(c *Ctx, gen string, idx int, sc c17Script) bool {
 		if atomic.SwapInt32(&nilSeen[1], 0) == 1 {
 			viol("me-nil", fmt.Sprintf("Me() was nil inside a handler (%s)", when))
 		}
+		if v, _ := bgStale.Swap("").(string); v != "" {
+			viol("bg-handler-stale-nick", v+" ("+when+")")
+		}
 		return true
 	}
 	if !check("after the welcome") {
@@ -377,6 +440,7 @@ func c17Run(c *Ctx, gen string, idx int, sc c17Script) bool {
 	others := []string{"bob", srvNick + "x", "x" + srvNick, strings.ToUpper(srvNick), "me", "given"}
 	for i, e := range sc.Events {
 		when := fmt.Sprintf("after event %d (%c)", i, e)
+		bgQuiet() // background handlers of earlier NICK lines have finished: their reads do not overlap later changes
 		switch e {
 		case 'C', 'R', 'D':
 			want := fmt.Sprintf("q%dz", i) // never the current nick, never a generator output of an earlier request
@@ -411,6 +475,8 @@ func c17Run(c *Ctx, gen string, idx int, sc c17Script) bool {
 					return c.R.NumViolations() < 30
 				}
 			}
+			announce(cur)
+			atomic.AddInt64(&nickSent, 1)
 			mc.SendLine(fmt.Sprintf(":%s!ident@host NICK :%s", srvNick, cur))
 			srvNick = cur
 		case 'K':
@@ -419,10 +485,14 @@ func c17Run(c *Ctx, gen string, idx int, sc c17Script) bool {
 			if n == srvNick {
 				n = fmt.Sprintf("forcedk%d", i)
 			}
+			announce(n)
+			atomic.AddInt64(&nickSent, 1)
 			mc.SendLine(fmt.Sprintf(":%s!ident@host NICK %s", srvNick, n))
 			srvNick = n
 		case 'F':
 			n := fmt.Sprintf("forced%d", i)
+			announce(n)
+			atomic.AddInt64(&nickSent, 1)
 			mc.SendLine(fmt.Sprintf(":%s!ident@host NICK %s", srvNick, n))
 			srvNick = n
 		case 'O':
@@ -434,17 +504,24 @@ func c17Run(c *Ctx, gen string, idx int, sc c17Script) bool {
 			if b == srvNick {
 				b = "bobby"
 			}
+			atomic.AddInt64(&nickSent, 1)
 			mc.SendLine(fmt.Sprintf(":%s!o@h NICK :%s", a, b))
 		}
 		if !check(when) {
 			return c.R.NumViolations() < 30
 		}
 		if sc.Toggle && i == 0 {
+			bgQuiet() // (switching tracking off while handlers are still using the client is not part of any script)
 			conn.DisableStateTracking()
 			sc.Tracking = false
 			if !check("after switching state tracking off") {
 				return c.R.NumViolations() < 30
 			}
+		}
+	}
+	if bgQuiet() {
+		if v, _ := bgStale.Swap("").(string); v != "" {
+			viol("bg-handler-stale-nick", v+" (end of script)")
 		}
 	}
 	CloseWatched(conn)
